@@ -1,3 +1,101 @@
-import Rtcp.Lemmas.Safe6
+/-
+  C05 — Marshal output is well-framed and its length equals MarshalSize.
+  For every value Marshal accepts (within the wire limits of C08, `WF`) whose encoding fits the 16-bit length
+  field: |output| = MarshalSize, 4 ∣ |output|, the first four octets decode to the type's Header() with
+  length field = |output|/4 − 1. Proved for SR, RR, SDES, BYE, APP, NACK, RRR, PLI, SLI, FIR; CompoundPacket size law.
+  REMB/TWCC/CCFB/XR: correspondence (`framed.*`, `size.*`, `hdr.*`, `len.*`) only at this point.
+  Known finding KF-XR-ALIGN: XR blocks with an odd chunk count / unaligned unknown bytes are emitted unaligned.
+-/
+import Rtcp.Lemmas.Frame
 namespace Rtcp.C05
+open Rtcp Gen Out
+set_option linter.unusedSimpArgs false
+set_option linter.unusedVariables false
+
+/-- what "well-framed" gives: version 2 header with the announced fields, word aligned, length field = words − 1 -/
+theorem framed_facts {f : Bytes} {h : Header} (hf : Framed f h) :
+    Header.dec f = .ok h ∧ f.length % 4 = 0 ∧ h.length = f.length / 4 - 1 ∧ 4 ≤ f.length := by
+  obtain ⟨⟨body, hb⟩, hc, ht, hl, hs⟩ := hf
+  refine ⟨?_, by omega, by omega, by omega⟩
+  rw [hb]; exact Header.dec_bytes h body hc ht (by omega)
+
+theorem sr_framed (v : SenderReport) (h : v.WF) (hfit : v.marshalSize ≤ 262140) :
+    ∃ f, v.enc = .ok f ∧ f.length = v.marshalSize ∧ f.length % 4 = 0 ∧ Header.dec f = .ok v.header ∧ v.header.length = f.length / 4 - 1 := by
+  obtain ⟨f, he, hf, hl⟩ := SenderReport.framed v h hfit
+  have := framed_facts hf
+  exact ⟨f, he, hl, this.2.1, this.1, this.2.2.1⟩
+
+theorem rr_framed (v : ReceiverReport) (h : v.WF) (hfit : v.marshalSize ≤ 262140) :
+    ∃ f, v.enc = .ok f ∧ f.length = v.marshalSize ∧ f.length % 4 = 0 ∧ Header.dec f = .ok v.header ∧ v.header.length = f.length / 4 - 1 := by
+  obtain ⟨f, he, hf, hl⟩ := ReceiverReport.framed v h hfit
+  have := framed_facts hf
+  exact ⟨f, he, hl, this.2.1, this.1, this.2.2.1⟩
+
+theorem sdes_framed (v : SourceDescription) (h : v.WF) (hfit : v.marshalSize ≤ 262140) :
+    ∃ f, v.enc = .ok f ∧ f.length = v.marshalSize ∧ f.length % 4 = 0 ∧ Header.dec f = .ok v.header ∧ v.header.length = f.length / 4 - 1 := by
+  obtain ⟨f, he, hf, hl⟩ := SourceDescription.framed v h hfit
+  have := framed_facts hf
+  exact ⟨f, he, hl, this.2.1, this.1, this.2.2.1⟩
+
+theorem bye_framed (v : Goodbye) (h : v.WF) :
+    ∃ f, v.enc = .ok f ∧ f.length = v.marshalSize ∧ f.length % 4 = 0 ∧ Header.dec f = .ok v.header ∧ v.header.length = f.length / 4 - 1 := by
+  obtain ⟨f, he, hf, hl⟩ := Goodbye.framed v h
+  have := framed_facts hf
+  exact ⟨f, he, hl, this.2.1, this.1, this.2.2.1⟩
+
+theorem app_framed (v : ApplicationDefined) (h : v.WF) :
+    ∃ f hd, v.enc = .ok f ∧ f.length = v.marshalSize ∧ f.length % 4 = 0 ∧ Header.dec f = .ok hd ∧ hd.type = 204 ∧ hd.length = f.length / 4 - 1 := by
+  obtain ⟨f, hd, he, hf, ht, hl⟩ := ApplicationDefined.framed v h
+  have := framed_facts hf
+  exact ⟨f, hd, he, hl, this.2.1, this.1, ht, this.2.2.1⟩
+
+theorem nack_framed (v : TransportLayerNack) (h : v.WF) :
+    ∃ f, v.enc = .ok f ∧ f.length = v.marshalSize ∧ f.length % 4 = 0 ∧ Header.dec f = .ok v.header ∧ v.header.length = f.length / 4 - 1 := by
+  obtain ⟨f, he, hf, hl⟩ := TransportLayerNack.framed v h
+  have := framed_facts hf
+  exact ⟨f, he, hl, this.2.1, this.1, this.2.2.1⟩
+
+theorem sli_framed (v : SliceLossIndication) (h : v.WF) :
+    ∃ f, v.enc = .ok f ∧ f.length = v.marshalSize ∧ f.length % 4 = 0 ∧ Header.dec f = .ok v.header ∧ v.header.length = f.length / 4 - 1 := by
+  obtain ⟨f, he, hf, hl⟩ := SliceLossIndication.framed v h
+  have := framed_facts hf
+  exact ⟨f, he, hl, this.2.1, this.1, this.2.2.1⟩
+
+theorem fir_framed (v : FullIntraRequest) (h : v.WF) :
+    ∃ f, v.enc = .ok f ∧ f.length = v.marshalSize ∧ f.length % 4 = 0 ∧ Header.dec f = .ok v.header ∧ v.header.length = f.length / 4 - 1 := by
+  obtain ⟨f, he, hf, hl⟩ := FullIntraRequest.framed v h
+  have := framed_facts hf
+  exact ⟨f, he, hl, this.2.1, this.1, this.2.2.1⟩
+
+theorem pli_framed (v : PictureLossIndication) :
+    ∃ f, v.enc = .ok f ∧ f.length = v.marshalSize ∧ f.length % 4 = 0 ∧ Header.dec f = .ok v.header ∧ v.header.length = f.length / 4 - 1 := by
+  obtain ⟨f, he, hf, hl⟩ := PictureLossIndication.framed v
+  have := framed_facts hf
+  exact ⟨f, he, hl, this.2.1, this.1, this.2.2.1⟩
+
+theorem rrr_framed (v : RapidResync) :
+    ∃ f, v.enc = .ok f ∧ f.length = v.marshalSize ∧ f.length % 4 = 0 ∧ Header.dec f = .ok v.header ∧ v.header.length = f.length / 4 - 1 := by
+  obtain ⟨f, he, hf, hl⟩ := RapidResync.framed v
+  have := framed_facts hf
+  exact ⟨f, he, hl, this.2.1, this.1, this.2.2.1⟩
+
+/-- RawPacket: the bytes themselves; MarshalSize is their number -/
+theorem raw_size (b : Bytes) : (Packet.raw b).enc = .ok b ∧ (Packet.raw b).marshalSize = b.length := ⟨rfl, rfl⟩
+
+/-- ExtendedReport.MarshalSize counts the RTCP header (the defect repaired by the fix: commit) -/
+theorem xr_size (x : XR) : x.marshalSize = 4 + x.wireSize := rfl
+
+/-- CompoundPacket.MarshalSize is the sum over its members -/
+theorem compound_size (ps : List Packet) : csize ps = (ps.map Packet.marshalSize).sum := rfl
+theorem compound_size_append (ps qs : List Packet) : csize (ps ++ qs) = csize ps + csize qs := by simp [csize]
+
+/-- the size functions are word aligned on their own for the padded types -/
+theorem sizes_aligned (sr : SenderReport) (rr : ReceiverReport) (g : Goodbye) (s : SourceDescription) :
+    sr.marshalSize % 4 = 0 ∧ rr.marshalSize % 4 = 0 ∧ g.marshalSize % 4 = 0 ∧ s.marshalSize % 4 = 0 := by
+  refine ⟨SenderReport.size_mod4 sr, ReceiverReport.size_mod4 rr, Goodbye.size_mod4 g, ?_⟩
+  have := chunksLen_mod4 s.chunks
+  simp [SourceDescription.marshalSize]; omega
+
+example : (SenderReport.mk 1 2 3 4 5 [{ ssrc := 9 }] [1, 2, 3, 4]).WF := by decide
+
 end Rtcp.C05
